@@ -34,6 +34,12 @@ func FetchCursor(ctx context.Context, scope *ReferenceScope, name parser.Identif
 		return false, err
 	}
 	if primaries == nil {
+		// The specified record does not exist: the variables are set to null.
+		for _, v := range vars {
+			if _, err := scope.SubstituteVariableDirectly(v, value.NewNull()); err != nil {
+				return false, err
+			}
+		}
 		return false, nil
 	}
 	if len(vars) != len(primaries) {
